@@ -464,6 +464,26 @@ theorem testSplit_stops_at_args (flags pre post : List Tok) (hpre : ∀ a ∈ pr
         rw [ih (fun y hy => h y (List.mem_cons_of_mem _ hy))]
     exact this (a :: t) hpre
 
+/-! ### `-C dir`: hoisted to the front, everything else kept in order -/
+
+/-- the hoisted flag is a contiguous piece of the flag list, and the rest is the list without it: nothing is dropped,
+duplicated or reordered - for every flag list -/
+theorem splitChdir_partition (bools : List Tok) : ∀ (flags : List Tok),
+    ∃ pre post, flags = pre ++ (splitChdir bools flags).1 ++ post ∧ (splitChdir bools flags).2 = pre ++ post := by
+  intro flags
+  fun_induction splitChdir bools flags with
+  | case1 => exact ⟨[], [], rfl, rfl⟩
+  | case2 a0 h => exact ⟨[], [], by simp, rfl⟩
+  | case3 a0 h => exact ⟨[a0], [], by simp, rfl⟩
+  | case4 a0 v rest a h => exact ⟨[], rest, by simp, rfl⟩
+  | case5 a0 v rest a h1 h2 => exact ⟨[], v :: rest, by simp, rfl⟩
+  | case6 a0 v rest a h1 h2 h3 r ih =>
+    obtain ⟨pre, post, e1, e2⟩ := ih
+    exact ⟨a0 :: pre, post, by simp only [List.cons_append]; rw [← e1], by simp only [List.cons_append]; rw [← e2]⟩
+  | case7 a0 v rest a h1 h2 h3 r ih =>
+    obtain ⟨pre, post, e1, e2⟩ := ih
+    exact ⟨a0 :: v :: pre, post, by simp only [List.cons_append]; rw [← e1], by simp only [List.cons_append]; rw [← e2]⟩
+
 /-- **and nothing else is**: a rejected token is one of garble's flags, alone or with `=value`; in particular a
 value such as `-tags=my-debug` or `out-tiny` is never rejected -/
 theorem rx_only_own (a : Tok) (h : rxGarbleMatch garbleOwn a = true) :
